@@ -267,7 +267,8 @@ pub fn run(ctx: &Ctx, rep: &mut Report) {
         "asan" => (ctx.n(160, 1600), 40),
         _ => (ctx.n(480, 16000), if ctx.quick() { 40 } else { 100 }),
     };
-    let std_table = RewriteTable::parse(&std::fs::read_to_string(crate::env::repo_root().join("resources/rewrite.def")).unwrap_or_default());
+    let std_text = std::fs::read_to_string(crate::env::repo_root().join("resources/rewrite.def")).unwrap_or_default();
+    let std_table = RewriteTable::parse(&format!("{}\n@\t@@@@\n", std_text));
     let mut hooks = sudachi::verif::counters();
     if !small {
         // the debug dumps of the tokenizer go to standard output: not needed (the report is written to --out)
@@ -293,6 +294,8 @@ pub fn run(ctx: &Ctx, rep: &mut Report) {
                 p.default_input = true;
                 p.mecab = rng.chance(1, 2);
                 p.n_users = rng.below(2);
+                // the standard table plus one rule that turns one ASCII character into four
+                p.rewrite_def = Some(format!("{}\n@\t@@@@\n", std_text));
                 build_world_from(&mut rng, &dopts, matrix, sys, p, place)
             })
         } else {
@@ -381,6 +384,20 @@ pub fn run(ctx: &Ctx, rep: &mut Report) {
                 let exp = s.len() <= MAX_ORIG && norm_len <= MAX_NORM;
                 texts.push((s, Some(exp)));
             }
+            // exactly 65,533 .. 65,536 one-byte characters after normalisation ('@' becomes '@@@@'): the largest texts the
+            // lattice can hold, counted in characters as well as in bytes
+            for target in [MAX_NORM - 2, MAX_NORM - 1, MAX_NORM, MAX_NORM + 1] {
+                let k = target / 4;
+                let mut s = "@".repeat(k);
+                let mut n = 4 * k;
+                while n < target {
+                    s.push('x');
+                    n += 1;
+                }
+                if normref::normalize(&std_table, &s).len() == target {
+                    texts.push((s, Some(target <= MAX_NORM)));
+                }
+            }
             // ordinary inputs in between (a failed analysis must leave the tokenizer usable)
             for _ in 0..6 {
                 texts.push((hostile_text(&mut rng, &keys), None));
@@ -449,6 +466,34 @@ pub fn run(ctx: &Ctx, rep: &mut Report) {
         hooks = check_hooks(hooks, rep, "", json!({"world_index": wi, "world": world.describe(true)}));
         if rep.want_sample() && !limits {
             rep.sample(json!({"texts": texts.iter().take(5).map(|t| clip(&t.0, 60)).collect::<Vec<_>>(), "config": world.cfg_json}));
+        }
+    }
+    // a configuration without any OOV provider must be refused when loading (analysis relies on a last provider)
+    if ctx.shard == 1 % ctx.nshards && ctx.only.is_none() && !small {
+        rep.progress_idx(u64::MAX - 30, "no OOV provider");
+        let mut rng = Rng::new(30);
+        let dopts = DictOpts::default();
+        let matrix = dictgen::gen_matrix(&mut rng, &dopts);
+        let sys = dictgen::gen_system(&mut rng, &dopts, &matrix);
+        if let Ok(Ok(w)) = guard(|| build_world_from(&mut rng, &dopts, matrix, sys, PluginOpts::none(), Place::Owned)) {
+            let mut cfg = w.cfg_json.clone();
+            cfg["oovProviderPlugin"] = json!([]);
+            let c = crate::env::config(&cfg, &w.res);
+            rep.eval();
+            match guard(|| crate::env::load(&c, &w.sys_bytes, &[], Place::Owned)) {
+                Ok(Err(_)) => rep.count("configurations_without_oov_provider_refused", 1),
+                Ok(Ok(d)) => {
+                    // it loaded: then analysis must be total with it as well
+                    let mut t = Tok::new(&d, Mode::C);
+                    for text in ["京都にxyz", "ⓧ", "あ"] {
+                        if let Err(p) = guard(|| t.run(text)) {
+                            rep.violation("panic", &p.site, &format!("configuration with an empty oovProviderPlugin list was accepted and analysis of {:?} panics: {}", text, p.msg), "", json!({"config": cfg}));
+                            break;
+                        }
+                    }
+                }
+                Err(p) => rep.violation("panic", &p.site, &format!("loading a configuration with an empty oovProviderPlugin list panics: {}", p.msg), "", json!({"config": cfg})),
+            }
         }
     }
     // labelled probe scenarios of the known findings (main stage, shard 0 only)
